@@ -15,7 +15,7 @@ pub mod c15;
 pub mod c16;
 pub mod c17;
 pub mod c18;
-#[cfg(feature = "all")]
+#[cfg(feature = "arb")]
 pub mod c19;
 pub mod c11;
 pub mod c12;
@@ -35,7 +35,7 @@ pub fn run(ctx: &'static Ctx) {
         "C16" => c16::run(ctx),
         "C17" => c17::run(ctx),
         "C18" => c18::run(ctx),
-        #[cfg(feature = "all")]
+        #[cfg(feature = "arb")]
         "C19" => c19::run(ctx),
         "C08" => c08::run(ctx),
         "C09" => c09::run(ctx),
@@ -77,7 +77,7 @@ pub fn replay(prop: &str, case: &Value) -> Verdict {
         "C15" => c15::replay(case),
         "C17" => c17::replay(case),
         "C18" => c18::replay(case),
-        #[cfg(feature = "all")]
+        #[cfg(feature = "arb")]
         "C19" => c19::replay(case),
         "C08" => c08::replay(case),
         "C09" => c09::replay(case),
